@@ -9,19 +9,22 @@ import (
 // Options select which half of the specification is made interesting (swarm
 // style: the other half is kept simple so that more specs are accepted).
 type Options struct {
+	Wide bool // a grammar with one LR state that has 36 or more outgoing symbols
 	RichLexer  bool // modes, fragments, nullable rules, non-greedy
 	RichParser bool // random grammar families with @error placements
 	RealLexable bool // tokens restricted so that a sentence can be rendered as text and re-lexed (C09 configuration b)
 }
 
 type gen struct {
+	wide bool
 	r    *core.Rand
 	s    *Spec
 	toks []string // names of tokens usable in the parser section
 	nRule int
 }
 
-var litPool = []string{"a", "b", "c", "d", "x", "y", "+", "-", "*", "/", "(", ")", "{", "}", "[", "]", ";", ",", ":", "=", "<", ">", "!", "if", "do", "fn", "let", "end", "==", "->", "é", "世"}
+var litPool = []string{"a", "b", "c", "d", "x", "y", "+", "-", "*", "/", "(", ")", "{", "}", "[", "]", ";", ",", ":", "=", "<", ">", "!", "if", "do", "fn", "let", "end", "==", "->", "é", "世",
+	"e", "f", "g", "h", "k", "m", "n", "p", "q", "r", "&", "|", "^", "%", "~", "?", "#", "@@", "<=", ">="}
 
 func (g *gen) pick(n int) int { return g.r.Intn(n) }
 
@@ -29,7 +32,7 @@ func (g *gen) chance(p int) bool { return g.r.Intn(100) < p }
 
 // Generate builds one specification from the seed.
 func Generate(seed uint64, opt Options) *Spec {
-	g := &gen{r: core.NewRand(seed), s: &Spec{}}
+	g := &gen{r: core.NewRand(seed), s: &Spec{}, wide: opt.Wide}
 	g.s.Pkg = []string{"main", "gram", "zparser", "main"}[g.pick(4)]
 	g.s.OnBounds = g.chance(40)
 	g.s.TwoFiles = g.chance(40)
@@ -55,6 +58,9 @@ func (g *gen) simpleLexer(lexable bool) {
 	if g.chance(15) {
 		// many terminals: two-digit terminal and state numbers in the tables
 		n = 12 + g.pick(len(litPool)-12)
+	}
+	if g.wide {
+		n = 40 + g.pick(len(litPool)-40)
 	}
 	perm := g.perm(len(litPool))
 	def := &LexMode{}
@@ -341,6 +347,19 @@ func (g *gen) richLexer() {
 		modes = append(modes, &LexMode{Name: name, Rules: []*LexRule{body, end}})
 		loopMode[len(modes)-1] = true
 	}
+	// Interpolation-style nesting: a bracket that pushes the default mode onto
+	// itself and its partner that pops, so that the mode stack can grow without
+	// bound.
+	if g.chance(30) {
+		ob, cb := "{", "}"
+		if g.chance(40) {
+			ob, cb = "(", ")"
+		}
+		o := &LexRule{Kind: RTok, Name: newTok(), Expr: &LexExpr{Op: LLit, Lit: ob}, Actions: []LexAction{{Kind: APush, Arg: ""}}}
+		c := &LexRule{Kind: RTok, Name: newTok(), Expr: &LexExpr{Op: LLit, Lit: cb}, Actions: []LexAction{{Kind: APop}}}
+		def.Rules = append([]*LexRule{o, c}, def.Rules...)
+		allToks = append(allToks, o.Name, c.Name)
+	}
 	// Every extra mode gets a way out most of the time, and the default mode
 	// gets a whitespace rule most of the time.
 	for mi, m := range modes[1:] {
@@ -394,10 +413,13 @@ func rrefc(n string, c Card) *Term { return &Term{Kind: KRule, Name: n, Card: c}
 func errT() *Term            { return &Term{Kind: KErr} }
 
 func (g *gen) richParser() {
-	fams := []func(){g.famStatements, g.famLLish, g.famExpr, g.famNullableChain, g.famRandomSmall, g.famLists, g.famLLish, g.famStatements, g.famErrorInRepetition}
+	fams := []func(){g.famStatements, g.famLLish, g.famExpr, g.famNullableChain, g.famRandomSmall, g.famLists, g.famLLish, g.famStatements, g.famErrorInRepetition, g.famIndirectLeftRecursion}
+	if len(g.toks) >= 36 {
+		fams = []func(){g.famWide}
+	}
 	fams[g.pick(len(fams))]()
 	for _, r := range g.s.Rules {
-		r.Ret = g.pick(4)
+		r.Ret = g.pick(7)
 	}
 	if g.chance(70) {
 		g.sprinkleErrors()
@@ -836,4 +858,58 @@ func (g *gen) famErrorInRepetition() {
 		top := &Rule{Name: "top", Prods: []*Prod{{Terms: []*Term{{Kind: KList, Elem: rref("item"), Sep: g.tokN(3)}}}}}
 		s.Rules = []*Rule{top, item}
 	}
+}
+
+// famWide: one rule with 36+ alternatives, each led by its own terminal, under
+// repetition: a single LR state has that many outgoing symbols.
+func (g *gen) famWide() {
+	s := g.s
+	s.Family = "wide"
+	n := len(g.toks) - 2
+	item := &Rule{Name: "item"}
+	for i := 0; i < n; i++ {
+		p := &Prod{Terms: []*Term{g.tokN(i)}}
+		switch g.pick(4) {
+		case 0:
+			p.Terms = append(p.Terms, rref("tail"))
+		case 1:
+			p.Terms = append(p.Terms, g.tokN(n))
+		}
+		item.Prods = append(item.Prods, p)
+	}
+	if g.chance(50) {
+		item.Prods = append(item.Prods, &Prod{Terms: []*Term{errT(), g.tokN(n + 1)}})
+	}
+	tail := &Rule{Name: "tail", Prods: []*Prod{{Terms: []*Term{g.tokN(n + 1)}}, {Terms: []*Term{g.tokN(n), g.tokN(n + 1)}}}}
+	top := &Rule{Name: "top", Prods: []*Prod{{Terms: []*Term{rrefc("item", []Card{Star, Plus}[g.pick(2)])}}}}
+	s.Rules = []*Rule{top, item, tail}
+}
+
+// famIndirectLeftRecursion: a left-recursive cycle through two rules, used
+// after a nullable or optional non-terminal, so that lookahead sets depend on
+// FIRST of a rule that is being computed.
+func (g *gen) famIndirectLeftRecursion() {
+	s := g.s
+	s.Family = "indirect-left-recursion"
+	do, semi, open, cls, id, pub := g.tokN(0), g.tokN(1), g.tokN(2), g.tokN(3), g.tokN(4), g.tokN(5)
+	mod := &Rule{Name: "mod", Prods: []*Prod{{Terms: []*Term{pub}}, {}}}
+	call := &Rule{Name: "call", Prods: []*Prod{{Terms: []*Term{rref("expr"), open, cls}}}}
+	expr := &Rule{Name: "expr", Prods: []*Prod{{Terms: []*Term{rref("call")}}, {Terms: []*Term{id}}}}
+	if g.chance(40) {
+		call.Prods = append(call.Prods, &Prod{Terms: []*Term{rref("expr"), open, {Kind: KList, Elem: rref("expr"), Sep: g.tokN(6)}, cls}})
+	}
+	stmt := &Rule{Name: "stmt"}
+	switch g.pick(3) {
+	case 0:
+		stmt.Prods = []*Prod{{Terms: []*Term{do, rref("mod"), rref("call"), semi}}, {Terms: []*Term{rref("call"), semi}}}
+	case 1:
+		stmt.Prods = []*Prod{{Terms: []*Term{do, rrefc("mod", Opt), rref("call"), semi}}}
+	default:
+		stmt.Prods = []*Prod{{Terms: []*Term{do, rref("mod"), rref("mod"), rref("call"), semi}}, {Terms: []*Term{id, semi}}}
+	}
+	if g.chance(60) {
+		stmt.Prods = append(stmt.Prods, &Prod{Terms: []*Term{errT(), semi}})
+	}
+	top := &Rule{Name: "top", Prods: []*Prod{{Terms: []*Term{rrefc("stmt", []Card{Star, Plus}[g.pick(2)])}}}}
+	s.Rules = []*Rule{top, stmt, mod, call, expr}
 }
